@@ -105,7 +105,7 @@ let show_cret name (r : cret option) : string =
       xrest := skipN !xrest r.cr_consumed;
       name ^ " ret=" ^ string_of_n r.cr_ret ^ " consumed=" ^ string_of_n r.cr_consumed
       ^ " fc=" ^ string_of_n s.c_fc ^ " fd=" ^ string_of_n s.c_fd ^ " nlog=" ^ string_of_n (lenN s.c_log)
-      ^ " wst=" ^ (if s.c_wst then "1" else "0") ^ " stpos=" ^ string_of_n s.c_stpos ^ " stidx=" ^ string_of_n s.c_stidx
+      ^ " wst=" ^ (if s.c_wst then "1" else "0") ^ " pend=" ^ (if s.c_pend then "1" else "0") ^ " stpos=" ^ string_of_n s.c_stpos ^ " stidx=" ^ string_of_n s.c_stidx
       ^ " left=" ^ string_of_int (List.length r.cr_orc) ^ " out=" ^ hex_of_bytes r.cr_out
 
 let set_log c l =
